@@ -356,11 +356,23 @@ def run_tcsweep(spec, res):
             par = md.params[pn]
             old = float(par.vin[j])
             new = old * 1.37 if old != 0 else 0.137
+            # the four documented ways of changing a parameter of a device: model / group, alter (input base) / set (system base)
+            channel = ["model.alter", "group.alter", "model.set", "group.set"][res.obs.get("tcsweep_alterations", 0) % 4]
+            kco_ = float(par.pu_coeff[j])
             try:
-                md.alter(pn, md.idx.v[j], new)
+                if channel == "model.alter":
+                    md.alter(pn, md.idx.v[j], new)
+                elif channel == "group.alter":
+                    ss.groups[md.group].alter(pn, md.idx.v[j], new)
+                elif channel == "model.set":
+                    md.set(pn, md.idx.v[j], "v", new * kco_)
+                else:
+                    ss.groups[md.group].set(pn, md.idx.v[j], "v", new * kco_)
             except Exception as e:
-                res.violate("alter_raises", "%s: %s.alter(%s, %r, %g) after TDS.init raised %r" % (spec["case"], mn, pn, md.idx.v[j], new, e))
+                res.violate("alter_raises", "%s: %s(%s.%s, %r, %g) after TDS.init raised %r" % (spec["case"], channel, mn, pn, md.idx.v[j], new, e))
                 return
+            res.count("tcsweep_via_" + channel.replace(".", "_"))
+            mn = "%s [%s]" % (md.class_name, channel)
             res.count("tcsweep_alterations")
             if len(sts) > 1:
                 res.count("tcsweep_shared_time_constants")
